@@ -626,11 +626,11 @@ def run(chk, lib, thorough):
 
     # (a) UTF-8 decoder
     blocks, lines = u8_cases(chk.rng, thorough)
-    a = both("uv__utf8_decode1 = Model/Idna.v utf8_decode1 (exhaustive blocks)", "u8blk", blocks, mon_u8blk)
-    chk.cov["utf8_sequences_enumerated"] = sum(
-        (256 if c.split()[2] == "*" else len(c.split()[2]) // 2) ** int(c.split()[1]) for c in blocks)
     a = both("uv__utf8_decode1 = Model/Idna.v utf8_decode1", "u8", lines, mon_u8)
     chk.sample({"utf8_case": lines[0], "impl": a[0] if a else None})
+    both("uv__utf8_decode1 = Model/Idna.v utf8_decode1 (exhaustive blocks)", "u8blk", blocks, mon_u8blk)
+    chk.cov["utf8_sequences_enumerated"] = sum(
+        (256 if c.split()[2] == "*" else len(c.split()[2]) // 2) ** int(c.split()[1]) for c in blocks)
 
     # (b) IDNA
     blocks, lines = idna_cases(chk.rng, thorough)
